@@ -277,6 +277,10 @@ def _build(tabs, ident, rng, maxcount=3, mode="rand", maskmode=None, force_count
     else:
         v = (v << padn) | rng.getrandbits(padn)
     b.payload = v.to_bytes((n + padn) // 8, "big")
+    vz = 0
+    for val, w in bits:
+        vz = (vz << w) | val
+    b.payload_zero = (vz << padn).to_bytes((n + padn) // 8, "big")
     b.exp = exp
     b.counts = {k: env[k] for k in env if k.split("_")[0] in tabs.counters or k in ("NSat", "NSig", "NCell")}
     return b
